@@ -104,6 +104,15 @@ def run_case(ctx, q, tables, route, label, mon):
     ctx.count(f'route.{route}')
     if reordered:
         ctx.count('obs.results_reordered')
+    if hash(case['statement']) % 5 == 0:
+        # re-execution on the same connection gives the same rows (no state kept between executions)
+        try:
+            _, _, rows_again = engine.run(conn, ir.to_text(q) if route == 'text' else ir.to_ast(q))
+            ctx.count('obs.reexecutions')
+            if not same_rows(rows_again, rows):
+                ctx.violation('c03.reexecution_differs', f'{case["statement"]}: a second execution on the same connection returns different rows', case)
+        except Exception as exc:  # noqa: BLE001
+            ctx.violation('c03.reexecution_differs', f'{case["statement"]}: a second execution raised {exc!r}', case)
     if q.distinct and cut:
         ctx.count('obs.distinct_or_limit_cut')
     if q.order_by:
